@@ -22,7 +22,35 @@ pub struct UpdCase {
     pub doc: Doc,
     /// intended outcome per test: 0 pass, 1 changed output, 2 changed exit code
     pub outcomes: Vec<u8>,
+    /// output lines of the tests whose output changed (empty: a fixed benign text)
+    #[serde(default)]
+    pub changed: Vec<String>,
 }
+
+/// lines for changed outputs: text that collides with the document syntax
+const CHANGED_LINES: &[&str] = &[
+    "new output",
+    "```",
+    "```bash",
+    "````",
+    "`````scrut",
+    "``` ",
+    "```` tail",
+    "`` two",
+    "~~~",
+    "$ not a command",
+    "> not a continuation",
+    "[3]",
+    "# not a comment",
+    "foo (glob)",
+    "x (no-eol)",
+    "",
+    "  ",
+    "trailing blanks  ",
+    "\ttab and back\\slash",
+    "---",
+    "ünï 世界",
+];
 
 /// a line matched by the expectation written as `line`
 fn sample_line(line: &str) -> Vec<u8> {
@@ -43,14 +71,20 @@ fn sample_line(line: &str) -> Vec<u8> {
     }
 }
 
-fn make_outputs(tests: &[TestCase], expected: &[ExpectedTest], intents: &[u8]) -> Vec<Output> {
+fn make_outputs(tests: &[TestCase], expected: &[ExpectedTest], intents: &[u8], changed: &[String]) -> Vec<Output> {
     tests
         .iter()
         .enumerate()
         .map(|(i, t)| {
             let intent = intents.get(i).copied().unwrap_or(0);
             let mut stdout = vec![];
-            if intent == 1 {
+            if intent == 1 && !changed.is_empty() {
+                stdout.extend_from_slice(format!("changed output of test {i}\n").as_bytes());
+                for l in changed {
+                    stdout.extend_from_slice(l.as_bytes());
+                    stdout.push(b'\n');
+                }
+            } else if intent == 1 {
                 stdout.extend_from_slice(format!("changed output of test {i}\nsecond line\n").as_bytes());
             } else if let Some(e) = expected.get(i) {
                 for l in &e.expectations {
@@ -114,7 +148,7 @@ pub fn check_update(c: &UpdCase) -> V {
     if tests.is_empty() {
         return V::pass().label("no_tests");
     }
-    let outputs = make_outputs(&tests, &r.tests, &c.outcomes);
+    let outputs = make_outputs(&tests, &r.tests, &c.outcomes, &c.changed);
     let outcomes = match guard(|| outcomes_for(&tests, &outputs)) {
         Ok(o) => o,
         Err(p) => return V::fail(format!("validate crashed: {p}")),
@@ -312,8 +346,13 @@ fn case_strategy() -> BoxedStrategy<UpdCase> {
                 d
             }),
     ];
-    (doc, vec(prop_oneof![2 => Just(0u8), 1 => Just(1u8), 1 => Just(2u8)], 8), any::<bool>())
-        .prop_map(|(mut doc, mut outcomes, tail_prose)| {
+    (
+        doc,
+        vec(prop_oneof![2 => Just(0u8), 1 => Just(1u8), 1 => Just(2u8)], 8),
+        any::<bool>(),
+        prop_oneof![1 => Just(vec![]), 2 => vec(proptest::sample::select(CHANGED_LINES.to_vec()).prop_map(String::from), 1..4)],
+    )
+        .prop_map(|(mut doc, mut outcomes, tail_prose, changed)| {
             // make the interesting shape frequent: first test passes, second fails, text at the end
             if outcomes.len() >= 2 {
                 outcomes[0] = 0;
@@ -323,7 +362,7 @@ fn case_strategy() -> BoxedStrategy<UpdCase> {
                 doc.blocks.push(Blk::Prose { lines: vec!["Text after the last test block.".into(), "- and a list item".into()] });
                 doc.gaps.push(1);
             }
-            UpdCase { doc, outcomes }
+            UpdCase { doc, outcomes, changed }
         })
         .boxed()
 }
@@ -348,6 +387,14 @@ fn check_e2e(c: &E2eCase) -> V {
     let mut doc = String::from("---\ntotal_timeout: 30s\n---\n\n# Update me\n\nSome prose with `inline` code.\n\n");
     let mut outside: Vec<String> = vec![];
     for (i, (lines, code, intent)) in c.tests.iter().enumerate() {
+        // lines that collide with the document syntax can only be *output* (intent 1: the
+        // expectations are outdated anyway); written as expectations they would be other syntax
+        let lines: Vec<String> = lines
+            .iter()
+            .filter(|l| *intent == 1 || !(l.starts_with("```") || l.starts_with("$ ") || l.starts_with("> ") || l.starts_with('[')))
+            .cloned()
+            .collect();
+        let lines = &lines;
         let pf = dir.path().join(format!("payload{i}.txt"));
         std::fs::write(&pf, lines.iter().map(|l| format!("{l}\n")).collect::<String>()).ok();
         doc.push_str(&format!("## test {i}\n\n```scrut\n# keep this comment\n$ cat '{}'; (exit {code})\n", pf.display()));
@@ -435,7 +482,7 @@ fn e2e_strategy() -> BoxedStrategy<E2eCase> {
     (
         vec(
             (
-                vec(proptest::sample::select(vec!["alpha", "beta gamma", "", "ünï", "  indented", "x (with parens)"]).prop_map(String::from), 0..4),
+                vec(proptest::sample::select(vec!["alpha", "beta gamma", "", "ünï", "  indented", "x (with parens)", "```", "```bash", "````", "$ x", "> y", "[2]"]).prop_map(String::from), 0..4),
                 prop_oneof![3 => Just(0u8), 1 => Just(3u8), 1 => Just(7u8)],
                 0u8..3,
             ),
